@@ -8,7 +8,7 @@
    correspondence and the direct oracle exercise them on the real library. *)
 From Coq Require Import ZArith.
 From BS Require Import Model.Base Model.Num Model.Arith Model.ExprParser Model.Script Model.Interp Model.LibCore Model.LibAll Model.LibPartial Model.Run Proofs.C09 Proofs.LibAll Proofs.LibPartial Proofs.C09term Proofs.C09termLib.
-From BS Require Import Proofs.C09termFull Proofs.C09termG Proofs.C09termFullG.
+From BS Require Import Proofs.C09termFull Proofs.C09termG Proofs.C09termFullG Proofs.C09termClosure.
 Local Open Scope Z_scope.
 
 (* EXACT (1): the limit is tested at the head of every statement, after counting it: with L statements started, statement
@@ -271,6 +271,50 @@ Theorem C09_no_measure_for_closures_over_all_worlds : forall mu Post,
   ~ (lib_post (libfull2 (mkcfg 10 false true)) Post /\ lib_wf (libfull2 (mkcfg 10 false true)) mu Post).
 Proof. exact libfull2_not_wf. Qed.
 Print Assumptions C09_no_measure_for_closures_over_all_worlds.
+
+(* (6) what the missing invariant buys (Proofs/C09termClosure.v).  [closure_ok w l]: the hidden array l has a head and at least one
+   bound argument, and a head that is itself a closure has a SMALLER location - the shape systemPartial gives it.  [libfull2g] is
+   libfull2 with that shape as a guard: calling a closure whose hidden array fails it is declined (LOracle).  Where the guard holds
+   the two libraries are the same function; for libfull2g THE CLAUSE holds in every world with no premise on the library.  That the
+   guard holds at every closure call of a run of libfull2 from a world without closure values is the invariant that is NOT proved. *)
+Theorem C09_guarded_library_is_the_combined_library_where_the_guard_holds : forall cfg cb name args w,
+  (forall l, partial_loc name = Some l -> closure_ok w l = true) -> libfull2g cfg cb name args w = libfull2 cfg cb name args w.
+Proof. exact libfull2g_same. Qed.
+Print Assumptions C09_guarded_library_is_the_combined_library_where_the_guard_holds.
+
+Theorem C09_terminates_combined_library_with_guarded_closures : forall cfg cfg' url_rel lint_lines,
+  0 < c_max cfg ->
+  forall sc w, exists fuel r, forall bot fuel', (fuel <= fuel')%nat ->
+    execute_script_bot cfg (libfull2g cfg') url_rel lint_lines bot fuel' sc w = r.
+Proof. exact libfull2g_run_terminates. Qed.
+Print Assumptions C09_terminates_combined_library_with_guarded_closures.
+
+(* the hidden array systemPartial allocates passes the guard, provided a bound function that is a closure is one that exists already *)
+Theorem C09_fresh_closure_passes_the_guard : forall args w v w1 l,
+  lib_partial_new args w = (LVal v, w1) -> v = VFun (FLib (partial_name l)) ->
+  (forall nm l', nth_error args 0 = Some (VFun (FLib nm)) -> partial_loc nm = Some l' -> (l' < length (w_arrs w))%nat) ->
+  closure_ok w1 l = true.
+Proof. exact partial_new_guard. Qed.
+Print Assumptions C09_fresh_closure_passes_the_guard.
+
+(* closures at work under maxStatements = 20: a closure of a closure over arraySort, called with a script comparator that logs
+     function cmp(a, b): systemLog('c'); return b - a endfunction
+     a = arrayNew(1, 2, 3)   p = systemPartial(arraySort, a)   q = systemPartial(systemPartial, p)   r = q(cmp)   r()   return arrayGet(a, 0)
+   -> 3, logged twice, 11 statements; the guarded and the unguarded library agree, for every fuel >= 30 and every tower *)
+Example C09_example_closures : forall bot fuel,
+  let cfg := mkcfg 20 false true in
+  let prog := [ SFunction (U "cmp") (Some [U "a"; U "b"]) false false
+                  [SExpr None (ECall (U "systemLog") [EStr (U "c")]); SReturn (Some (EBin (U "-") (EVar (U "b")) (EVar (U "a"))))];
+                SExpr (Some (U "a")) (ECall (U "arrayNew") [ENum (NInt 1); ENum (NInt 2); ENum (NInt 3)]);
+                SExpr (Some (U "p")) (ECall (U "systemPartial") [EVar (U "arraySort"); EVar (U "a")]);
+                SExpr (Some (U "q")) (ECall (U "systemPartial") [EVar (U "systemPartial"); EVar (U "p")]);
+                SExpr (Some (U "r")) (ECall (U "q") [EVar (U "cmp")]);
+                SExpr None (ECall (U "r") []);
+                SReturn (Some (ECall (U "arrayGet") [EVar (U "a"); ENum (NInt 0)])) ] in
+  let r1 := execute_script_bot cfg (libfull2g cfg) no_url no_lint bot (30 + fuel) prog (world0 []) in
+  let r2 := execute_script_bot cfg (libfull2 cfg) no_url no_lint bot (30 + fuel) prog (world0 []) in
+  r1 = r2 /\ fst r1 = OVal (VNum (NInt 3)) /\ w_log (snd r1) = [U "c"; U "c"] /\ w_count (snd r1) = 11.
+Proof. intros bot fuel. vm_compute. repeat split. Qed.
 
 (* the nest at work (maxStatements = 10, libfull2):  b = arrayNew(3, 1, 2)   a = arrayNew(arraySort, b)   return arraySort(a, arraySort)
    -> the outer sort's first comparison is arraySort(b, arraySort), whose first comparison arraySort(1, 3) fails on its arguments; the
